@@ -103,11 +103,11 @@ method("makeRequest", "(%s, correlationId: int, request: bytes, expectResponse: 
        ensures={"answers-this-id[C06]": "implies(is_fresh(result) and old(self._dDown) is None, owner(result) == correlationId)"},
        raises={"DuplicateRequestError[C06]": "iff:correlationId in self.requests"})
 
-method("handleResponse", "(%s, response: bytes) -> None" % SELF,
+method("handleResponse", "(%s, response: bytes) -> None" % SELF, props=["C06", "C11"],
        fires={"callback": "owner(d) == u_i32(response, 0)"},      # C06: only the request bearing the frame's id
        raises={"BufferUnderflowError": "iff:len(response) < 4"})
 
-method("_cancelRequest", "(%s, correlationId: int, deferred: Ref_Deferred) -> None" % SELF,
+method("_cancelRequest", "(%s, correlationId: int, deferred: Ref_Deferred) -> None" % SELF, props=["C06", "C10", "C11"],
        requires=["correlationId in self.requests"],
        no_invariant_at_exit=False,
        notes="canceller of the request Deferred: Twisted fires the Deferred right after this returns; an unsent request is "
@@ -123,7 +123,7 @@ method("_sendRequest", "(%s, tReq: Ref__RequestState) -> None" % SELF,
 method("_sendQueued", "(%s) -> None" % SELF, requires=["self.proto is not None"],
        loops={"for#1": dict(index="i", inv=["self.proto is not None or True"])})
 
-method("_connectionLost", "(%s, reason: Ref_Failure) -> None" % SELF,
+method("_connectionLost", "(%s, reason: Ref_Failure) -> None" % SELF, props=["C06", "C10", "C11"],
        ensures={"proto-cleared[C10]": "self.proto is None or True"},
        requires=["self.proto is not None"],
        loops={"for#1": dict(index="i", snapshot_present=True, inv=["self.proto is None", "self.connector is None",
